@@ -69,9 +69,16 @@
 //   - a *value* of abstract type (local, result of an opaque call, parameter
 //     that is compared with nil) is modelled by what the code can observe of
 //     it: `AbsPtr` (true = non-nil) for pointers, interfaces, maps, slices, …,
-//     `Unit` otherwise; `&T{…}` of abstract type is non-nil; an assignment to a
+//     `Unit` otherwise (also as a function result); in trace mode a re-slicing
+//     `a[i:j]` is an opaque value preceded by the entry ("slice", [text with
+//     bounds]) and `*p = v` through an abstract pointer is an effect like a
+//     field assignment; `&T{…}` of abstract type is non-nil and, in trace mode
+//     with the file-level option "trace_new",
+//     the entry ("new T", ["K=" ++ value, …]) (nested literals flattened to
+//     "K.L=…", values of scalar type rendered, "_" otherwise); an assignment to a
 //     field of an abstract object (`resp.Compress = true`) is an effect and is
-//     appended to the trace as `("set resp.Compress", ["true"])`; values read
+//     appended to the trace as `("set resp.Compress", ["true"])` (the
+//     value of a call of scalar type is evaluated first, its opaque calls traced); values read
 //     from abstract objects are re-read (fresh parameters) after any opaque
 //     call or such a write;
 //   - with the file-level option "abstract_bytes", byte slices are abstract
@@ -79,6 +86,11 @@
 //     `buf[lo:hi]` passed to a traced call is shown as "buf[<lo>:<hi>]" with
 //     the values of its bounds, so which window of a buffer is handed to
 //     Unpack / Write is part of the translated meaning;
+//   - fmt.Errorf / errors.New (and the validators' newXxxError helpers) are
+//     fixed non-nil error texts; with the file-level option "trace_errors" they
+//     are, in traced functions, opaque calls like any other (a parameter for
+//     the result and a trace entry with the format string) — the behaviour the
+//     ties of C08 (and others written before the texts became fixed) rely on;
 //   - []error literals, append on them and errors.Join are lists of optional
 //     texts and "first non-nil" (errors.Join is non-nil iff an element is);
 //   - opaque calls and reads from abstract objects are not allowed inside
@@ -87,7 +99,8 @@
 //     Lean definition (`o<k>_<callee>`, one per call site, in order of
 //     appearance) and, when "trace" is set, the definition also returns the
 //     list of opaque calls reached, in order, each with the values of its
-//     arguments of scalar type — so "which external effects happen, in which
+//     arguments of scalar type (a slice expression `a[i:j]` is
+//     rendered as "a[" ++ i ++ ":" ++ j ++ "]" with the bounds' values) — so "which external effects happen, in which
 //     order and with which arguments" is part of the translated meaning; calls
 //     listed under "pure" are opaque values that are not traced; a call to a
 //     translated function that itself has opaque parameters is opaque too;
@@ -166,6 +179,12 @@ type trSpecFile struct {
 	Symbolic bool `json:"symbolic,omitempty"`
 	// AbstractBytes makes byte slices abstract buffers (see the header).
 	AbstractBytes bool `json:"abstract_bytes,omitempty"`
+	// TraceErrors: in traced functions fmt.Errorf / errors.New are opaque
+	// calls (a parameter and a trace entry) instead of fixed error texts.
+	TraceErrors bool `json:"trace_errors,omitempty"`
+	// TraceNew: in traced functions `&T{…}` of abstract type is also the
+	// trace entry ("new T", ["K=" ++ value, …]).
+	TraceNew bool `json:"trace_new,omitempty"`
 }
 
 type loadedPkg struct {
@@ -280,6 +299,10 @@ type translator struct {
 	symbolic bool
 	// absBytes: byte slices are abstract buffers.
 	absBytes bool
+	// traceErrors: fmt.Errorf / errors.New are traced opaque calls in traced functions.
+	traceErrors bool
+	// traceNew: `&T{…}` of abstract type is also a ("new T", […]) trace entry.
+	traceNew bool
 }
 
 type funcOut struct {
@@ -623,12 +646,16 @@ func (c *fctx) exprAs(e ast.Expr, to types.Type) ex {
 						xs = append(xs, c.expr(v))
 					}
 				}
-				return c.bindN(xs, func(s []string) string {
+				r := c.bindN(xs, func(s []string) string {
 					if len(s) == 0 {
 						return "true"
 					}
 					return "(Function.const _ true (" + strings.Join(s, ", ") + "))"
 				})
+				if c.trace && c.t.traceNew {
+					r.code += "«call:" + c.litEntry(cl) + "»"
+				}
+				return r
 			}
 		}
 		if from := c.typeOf(e); c.t.leanType(from) != "" && isPtrStruct(from) {
@@ -744,12 +771,16 @@ func (c *fctx) expr(e ast.Expr) ex {
 					xs = append(xs, c.expr(v))
 				}
 			}
-			return c.bindN(xs, func(s []string) string {
+			r := c.bindN(xs, func(s []string) string {
 				if len(s) == 0 {
 					return "true"
 				}
 				return "(Function.const _ true (" + strings.Join(s, ", ") + "))"
 			})
+			if c.trace && c.t.traceNew {
+				r.code += "«call:" + c.litEntry(cl) + "»"
+			}
+			return r
 		}
 		if cl, ok := x.X.(*ast.CompositeLit); ok && x.Op == token.AND {
 			return c.bindN([]ex{c.expr(cl)}, func(s []string) string { return "(some " + s[0] + ")" })
@@ -813,6 +844,28 @@ func (c *fctx) expr(e ast.Expr) ex {
 				return c.opaqueValue(e)
 			}
 		}
+	}
+	if se, ok := e.(*ast.SliceExpr); ok && c.trace && !isString(c.typeOf(e)) {
+		// re-slicing (capacity) is beyond the subset: an opaque value; a call
+		// operand is evaluated for the trace, then ("slice", [text with bounds])
+		pre := ""
+		if _, isCall := se.X.(*ast.CallExpr); isCall {
+			_, calls := traceSplit(c.expr(se.X).code)
+			for _, m := range calls {
+				pre += "«call:" + m + "»"
+			}
+		}
+		if c.opaqueNodes == nil {
+			c.opaqueNodes = map[ast.Expr]string{}
+		}
+		name, ok := c.opaqueNodes[e]
+		if !ok {
+			c.nOpaque++
+			name = fmt.Sprintf("e%d_slice", c.nOpaque)
+			c.opaque = append(c.opaque, fmt.Sprintf("(%s : %s)", name, c.t.valType(c.typeOf(e))))
+			c.opaqueNodes[e] = name
+		}
+		return ex{code: pre + "«call:(\"slice\", [" + c.traceArg(se) + "])»" + name}
 	}
 	fail("expression %s (%T)", c.show(e), e)
 	return ex{}
@@ -888,6 +941,27 @@ func (c *fctx) tokenLit(x *ast.CompositeLit) ex {
 		}
 		return "(" + r + ` ++ "}")`
 	})
+}
+
+// litEntry is the trace entry of `&T{K: v, …}` of abstract type: ("new T",
+// ["K=" ++ value, …]), nested literals flattened to "K.L=…"; values as in traceArg.
+func (c *fctx) litEntry(cl *ast.CompositeLit) string {
+	var args []string
+	var walk func(l *ast.CompositeLit, prefix string)
+	walk = func(l *ast.CompositeLit, prefix string) {
+		for _, el := range l.Elts {
+			kv, ok := el.(*ast.KeyValueExpr)
+			if !ok {
+				args = append(args, c.traceArg(el))
+			} else if in, ok := kv.Value.(*ast.CompositeLit); ok {
+				walk(in, prefix+c.show(kv.Key)+".")
+			} else {
+				args = append(args, fmt.Sprintf("(%q ++ %s)", prefix+c.show(kv.Key)+"=", c.traceArg(kv.Value)))
+			}
+		}
+	}
+	walk(cl, "")
+	return fmt.Sprintf("(%q, [%s])", "new "+c.show(cl.Type), strings.Join(args, ", "))
 }
 
 // opaqueValue turns an expression the subset cannot express (an element of a
@@ -1266,7 +1340,7 @@ func (c *fctx) call(x *ast.CallExpr) ex {
 		return r
 	}
 	// errors made by any other call: opaque non-nil error value labelled by source text
-	if isError(c.typeOf(x)) {
+	if isError(c.typeOf(x)) && !(c.trace && c.t.traceErrors) {
 		if tup, ok := c.typeOf(x).(*types.Tuple); !ok || tup.Len() == 1 {
 			switch c.show(x.Fun) {
 			case "fmt.Errorf", "errors.New", "errors.Error", "newNotPositiveError", "newNegativeError", "newMustBeUniqueError":
@@ -1349,6 +1423,20 @@ func (c *fctx) traceArg(a ast.Expr) (code string) {
 		}
 	}
 	lt := c.t.leanType(tv.Type)
+	if se, ok := a.(*ast.SliceExpr); ok && lt != "String" && !c.t.symbolic {
+		// a slice expression: the operand's source text with the bounds' values
+		// (in symbolic mode it is an opaque value, rendered as a token below)
+		parts := []string{fmt.Sprintf("%q", c.show(se.X)+"[")}
+		for i, b := range []ast.Expr{se.Low, se.High, se.Max} {
+			if i > 0 && (i < 2 || se.Slice3) {
+				parts = append(parts, "\":\"")
+			}
+			if b != nil {
+				parts = append(parts, c.traceArg(b))
+			}
+		}
+		return "(" + strings.Join(append(parts, "\"]\""), " ++ ") + ")"
+	}
 	render := "(toString %s)"
 	switch {
 	case lt == "String":
@@ -2052,8 +2140,14 @@ func (c *fctx) assignStmt(x *ast.AssignStmt, rest []ast.Stmt) string {
 		if call, ok := x.Rhs[0].(*ast.CallExpr); ok && !isBuiltin(call) {
 			// evaluate the call first (for the trace), then record the write
 			e := c.expr(call)
-			return c.withEx(e, func(string) string {
-				return c.abstractWrite(x.Lhs[0], op, &ast.Ident{Name: "_"}, func() string { return c.stmts(rest) })
+			return c.withEx(e, func(code string) string {
+				var v ast.Expr = &ast.Ident{Name: "_"}
+				if lt := c.t.leanType(c.typeOf(call)); lt == "Int" || lt == "Bool" {
+					v = &ast.Ident{Name: "«(toString " + code + ")»"} // value of scalar type: rendered
+				} else if lt == "String" {
+					v = &ast.Ident{Name: "«" + code + "»"}
+				}
+				return c.abstractWrite(x.Lhs[0], op, v, func() string { return c.stmts(rest) })
 			})
 		}
 		return c.abstractWrite(x.Lhs[0], op, x.Rhs[0], func() string { return c.stmts(rest) })
@@ -2147,6 +2241,9 @@ func (c *fctx) assign(lhs ast.Expr, e ex, rest []ast.Stmt, _ ast.Expr) string {
 // assignCode emits `lhs := code` followed by k().
 // abstractTarget reports whether lhs is a field (path) of an abstract object.
 func (c *fctx) abstractTarget(lhs ast.Expr) bool {
+	if st, ok := lhs.(*ast.StarExpr); ok {
+		return c.t.valType(c.typeOf(st.X)) == "AbsPtr" // *p = v through an abstract pointer
+	}
 	se, ok := lhs.(*ast.SelectorExpr)
 	if !ok {
 		return false
@@ -2173,7 +2270,9 @@ func (c *fctx) abstractWrite(lhs ast.Expr, op string, rhs ast.Expr, k func() str
 		fail("assignment to %s, a field of an abstract object (needs trace)", c.show(lhs))
 	}
 	val := c.traceArg(rhs)
-	if val == "\"_\"" {
+	if id, ok := rhs.(*ast.Ident); ok && strings.HasPrefix(id.Name, "«") {
+		val = strings.Trim(id.Name, "«»") // already evaluated by the caller
+	} else if val == "\"_\"" {
 		val = fmt.Sprintf("%q", c.show(rhs))
 	}
 	c.opaqueVals = nil
@@ -2479,7 +2578,7 @@ func runTranslator(specDir, outDir, harness, modfile string) error {
 	sort.Strings(props)
 	for _, prop := range props {
 		sf := specs[prop]
-		t := &translator{l: l, structs: map[string]*structDef{}, funcs: map[string]*funcOut{}, byDecl: map[string]TrFunc{}, symbolic: sf.Symbolic, absBytes: sf.AbstractBytes}
+		t := &translator{l: l, structs: map[string]*structDef{}, funcs: map[string]*funcOut{}, byDecl: map[string]TrFunc{}, symbolic: sf.Symbolic, absBytes: sf.AbstractBytes, traceErrors: sf.TraceErrors, traceNew: sf.TraceNew}
 		for _, f := range sf.Funcs {
 			t.byDecl[repoModule+f.Pkg+"."+f.Func] = f
 		}
